@@ -105,6 +105,16 @@ func c07Gen(r *rand.Rand, tier string) []Case {
 				tip, cap = big.NewInt(0), big.NewInt(0)
 			}
 			c = append(c, fmt.Sprintf("efloor %s %d %d %s %s %s %s", mg, typ, gas, gp, tip, cap, base))
+			if typ == 2 && r.Intn(2) == 0 {
+				// the fee market not in force (switched off, or not yet enabled): the EVM's base fee is then 0, and what a
+				// dynamic-fee transaction pays is min(tip, cap) — the floor is about that, not about the cap
+				capHi := new(big.Int).Add(price, big.NewInt(int64(5+r.Intn(100))))
+				tipLo := new(big.Int).Sub(price, big.NewInt(int64(1+r.Intn(3))))
+				if tipLo.Sign() < 0 {
+					tipLo = big.NewInt(0)
+				}
+				c = append(c, fmt.Sprintf("efloor %s 2 %d 0 %s %s 0 # market=%s", mg, gas, pick(r, []*big.Int{tipLo, tip, price}), capHi, pick(r, []string{"nobasefee", "notyet"})))
+			}
 			if r.Intn(2) == 0 && gas > 0 {
 				// two messages in one transaction: the second over-pays by what the first is short of (or one more / one less)
 				short := big.NewInt(int64(1 + r.Intn(5)))
@@ -463,6 +473,14 @@ func c07Exec(c Case) (outs []string, fails []Failure, tags []string) {
 				p := app.FeeMarketKeeper.GetParams(ctx)
 				p.MinGasPrice = sdk.NewDecFromBigIntWithPrec(mustBig(f[1]), 18)
 				p.BaseFee = sdk.NewIntFromBigInt(base)
+				switch vmKV(f)["market"] {
+				case "nobasefee":
+					p.NoBaseFee = true
+					tags = append(tags, "efloor-fee-market-off")
+				case "notyet":
+					p.EnableHeight = ctx.BlockHeight() + 1000
+					tags = append(tags, "efloor-fee-market-not-yet-enabled")
+				}
 				_ = app.FeeMarketKeeper.SetParams(ctx, p)
 				dec := evmante.NewEthMinGasPriceDecorator(app.FeeMarketKeeper, app.EvmKeeper)
 				_, err := dec.AnteHandle(ctx.WithIsCheckTx(false), c07MsgTx{[]sdk.Msg{msg}}, false, func(ctx sdk.Context, _ sdk.Tx, _ bool) (sdk.Context, error) { return ctx, nil })
